@@ -26,5 +26,6 @@ func (m *Map[K, V]) Swap(key K, value V) (previous V, loaded bool) {
 		var zero V
 		return zero, false
 	}
-	return previousUntyped.(V), loaded
+	previous, _ = previousUntyped.(V)
+	return previous, loaded
 }
